@@ -299,11 +299,65 @@ func subjects() []subject {
 	return out
 }
 
+// adderFor maps list accessors to the adder that feeds them.
+var adderFor = map[string]string{"Filters": "AddFilter", "ReasonCodes": "AddReasonCode", "SubscriptionIDs": "AddSubscriptionID"}
+
+// observeSubject observes the accessors the model can predict: those with
+// a matching Set<Name> (or adder) method, the HasFlag bits and the user
+// properties. An accessor without a setter (a derived value such as a size)
+// is not a field in the sense of the property and is left out.
 func observeSubject(q any) KV {
 	if u, ok := q.(*mq.UserProperties); ok {
 		return KV{"UserProperties": render(reflect.ValueOf(*u))}
 	}
-	return observeKV(q)
+	all := observeKV(q)
+	t := reflect.TypeOf(q)
+	out := KV{}
+	for k, v := range all {
+		if strings.HasPrefix(k, "HasFlag(") || k == "UserProperties" {
+			out[k] = v
+			continue
+		}
+		if _, ok := t.MethodByName("Set" + k); ok {
+			out[k] = v
+			continue
+		}
+		if a, ok := adderFor[k]; ok {
+			if _, ok := t.MethodByName(a); ok {
+				out[k] = v
+				continue
+			}
+			if _, ok := t.MethodByName(a + "s"); ok {
+				out[k] = v
+				continue
+			}
+		}
+	}
+	return out
+}
+
+// uncoveredSetters lists Set*/Add* methods of the subjects that the
+// alphabets do not call (the API grew): reported, never a violation.
+func uncoveredSetters() []string {
+	var out []string
+	for _, s := range subjects() {
+		names := map[string]bool{}
+		for _, o := range alphabet(s.Name) {
+			n := o.Name
+			if i := strings.Index(n, "("); i > 0 {
+				n = n[:i]
+			}
+			names[n] = true
+		}
+		t := reflect.TypeOf(s.New())
+		for i := 0; i < t.NumMethod(); i++ {
+			m := t.Method(i).Name
+			if (strings.HasPrefix(m, "Set") || strings.HasPrefix(m, "Add")) && !names[m] {
+				out = append(out, s.Name+"."+m)
+			}
+		}
+	}
+	return out
 }
 
 // makeInit builds the initial object of an init kind, or nil.
@@ -345,6 +399,9 @@ type e2Visit func(s subject, init string, ops []sop, path []int, q any, model KV
 
 // runE2Setters is the breadth-first search shared by C12 and C19.
 func runE2Setters(x *core.Ctx, visit e2Visit) {
+	if un := uncoveredSetters(); len(un) > 0 {
+		x.Cap("public setters not in the alphabets (API surface grew): " + strings.Join(un, ", "))
+	}
 	depthNew, depthOther := 3, 2
 	if x.Thorough() {
 		depthNew, depthOther = 4, 3
